@@ -8,7 +8,11 @@ export GOFLAGS=-mod=mod GOPROXY=off
 cd $WT || exit 2
 git checkout -q -- . ; git clean -fdq
 PKG=$(python3 -c "import json;print(json.load(open('$D/meta.json'))['demo_pkg_dir'])")
-RUN=$(python3 -c "import json;print(json.load(open('$D/meta.json'))['demo_run'])")
+RUN=$(python3 -c "
+import json,re
+r=json.load(open('$D/meta.json'))['demo_run']
+r=re.sub(r'^\s*cd\s+\S+(\s+\S+)?\s*&&\s*','',r) if r.strip().startswith('cd <') or r.strip().startswith('cd /tmp/seedwt') else r
+print(r)")
 DEMOS=$(ls $D/*_test.go 2>/dev/null)
 cp $DEMOS $WT/$PKG/ || exit 2
 ( cd $WT; eval "$RUN" ) > $D/confirm_without.log 2>&1; WITHOUT=$?
@@ -27,7 +31,10 @@ for l in open(d+'/confirm_suite.json'):
     except ValueError: continue
     if e.get('Test') and e.get('Action') in('pass','fail'):
         res[e['Package']+'::'+e['Test']]=e['Action']
-bad=[t for t in stable if res.get(t)!='pass']
+b=json.load(open('/root/.vp/BASELINE.json'))
+unstable={t.split('/')[0] if '::' not in t.split('/')[0] else t for t in []}
+unstable_top=set(x.split('::')[0]+'::'+x.split('::')[1].split('/')[0] for x in b.get('flaky',[])+b.get('always_fail',[]))
+bad=[t for t in stable if res.get(t)!='pass' and (t.split('::')[0]+'::'+t.split('::')[1].split('/')[0]) not in unstable_top]
 v={"demo_passes_without_change":without==0,"builds":build==0,"demo_fails_with_change":withc!=0,"suite_stable_tests_not_passing":bad[:20],"suite_ok":len(bad)==0,"tests_seen":len(res)}
 v["confirmed"]=v["demo_passes_without_change"] and v["builds"] and v["demo_fails_with_change"] and v["suite_ok"]
 json.dump(v,open(d+'/confirm.json','w'),indent=1); print(json.dumps(v))
